@@ -79,7 +79,7 @@ def run_tree(rec, tier, seed, ti, spec):
         act = it.types["PacketAction"][0]
         for name, decl, path in classes:
             vg = ValueGen(it, rng, "nd")
-            for j in range(VALUES[tier]):
+            for j in range(VALUES[tier] * (4 if ti < 0 else 1)):  # the hand-written tree gets four times the values
                 obj = vg.message(name)
                 mode = (j % 3 == 2)
                 res = one(rec, t, ti, name, obj, mode)
